@@ -213,8 +213,9 @@ Record bnd := { b_left : fv; b_inter : fv; b_right : fv; b_elem : N; b_pos : N }
 Record pol := { p_grid : option (list fv); p_coef : list (fv * fv); p_pos : N; p_cache : option fv }.
 (* iterator_values.c: text copy starts at offset v_base of the description *)
 Record vals := { v_text : text; v_base : nat; v_next : option nat; v_curr : fv }.
-(* iterator_string.c: content = text from s_base; val/end/restore as offsets (save = original byte) *)
-Record stri := { s_text : text; s_base : nat; s_val : option nat; s_end : option nat; s_restore : option nat }.
+(* iterator_string.c: content = text from s_base; val/end/restore as offsets (save = original byte);
+   s_sep = the separator configuration stored in front of the text (empty: none) *)
+Record stri := { s_text : text; s_sep : list N; s_base : nat; s_val : option nat; s_end : option nat; s_restore : option nat }.
 (* meta_buffer.c over a 'c' array: data = None: no buffer; off/len = current slice; str = string address *)
 Record bufi := { m_data : option (list N); m_off : nat; m_len : nat; m_str : option nat; m_args : bool }.
 
@@ -354,7 +355,7 @@ Definition mk_values (t : text) (p : nat) : option vals :=
 
 (* ---- string iterator *)
 Definition str_set (s : stri) (v e r : option nat) : stri :=
-  {| s_text := s_text s; s_base := s_base s; s_val := v; s_end := e; s_restore := r |}.
+  {| s_text := s_text s; s_sep := s_sep s; s_base := s_base s; s_val := v; s_end := e; s_restore := r |}.
 (* element conversion to double: parseConvertElement(.., 'd', &dest) *)
 Definition str_conv_d (s : stri) : vres * stri :=
   match s_val s with
@@ -398,11 +399,75 @@ Definition str_advance (s : stri) : Z * stri :=
   end.
 Definition str_reset (s : stri) : Z * stri :=
   (1, str_set s (Some (s_base s)) (Some (tlen (s_text s))) None).
+(* the clone is mpt_iterator_string(it->val, stored separators); without a text no separators are kept *)
 Definition str_clone (s : stri) : stri :=
   let b := match s_val s with Some p => p | None => tlen (s_text s) end in
-  {| s_text := s_text s; s_base := b; s_val := Some b; s_end := Some (tlen (s_text s)); s_restore := None |}.
-Definition mk_string (t : text) : stri :=
-  {| s_text := t; s_base := O; s_val := Some O; s_end := Some (tlen t); s_restore := None |}.
+  {| s_text := s_text s; s_sep := match s_val s with Some _ => s_sep s | None => [] end;
+     s_base := b; s_val := Some b; s_end := Some (tlen (s_text s)); s_restore := None |}.
+(* mpt_iterator_string(text, sep) *)
+Definition mk_string_sep (sep : list N) (t : text) : stri :=
+  {| s_text := t; s_sep := sep; s_base := O; s_val := Some O; s_end := Some (tlen t); s_restore := None |}.
+Definition default_sep : list N := [32; 44; 59; 47; 58]%N.        (* " ,;/:" *)
+Definition mk_string (t : text) : stri := mk_string_sep default_sep t.
+
+(* ---- element conversions that hand out bytes: keyword ('k') and 'c' vector *)
+(* what a reader finds at a position holding a byte: no element (code; clear = the pending terminator is
+   forgotten), or an element ending at offset rs (the byte replaced by the terminator) with its bytes *)
+Inductive rres := RFail (c : Z) (clear : bool) | ROk (rs : nat) (b : list N).
+Definition str_read (rd : text -> nat -> rres) (s : stri) : Z * option (list N) * stri :=
+  match s_val s with
+  | None => (0, None, s)
+  | Some p =>
+      if (byte_at (s_text s) p =? 0)%N then (MissingData, None, str_set s (s_val s) (s_end s) None) else
+      match rd (s_text s) p with
+      | RFail c clear => (c, None, if clear then str_set s (s_val s) (s_end s) None else s)
+      | ROk rs b =>
+          let keep := match s_end s with Some e => Nat.ltb rs e | None => false end in
+          (T_s, Some b, str_set s (s_val s) (s_end s) (if keep then Some rs else None))
+      end
+  end.
+(* mpt_convert_key (convert_key.c): the scanning loops; n = bytes consumed behind the key start, len = key length *)
+Definition is_sep (sep : list N) (b : N) : bool := existsb (N.eqb b) sep.
+Fixpoint key_scan (sep : list N) (anysp : bool) (l : list N) (n len : nat) : nat * nat :=
+  match l with
+  | [] => (n, len)
+  | b :: r =>
+      if (b =? 0)%N then (n, len) else
+      if isspace b then (if anysp then (n, len) else key_scan sep anysp r (S n) len)
+      else if is_sep sep b then (S n, len)
+      else key_scan sep anysp r (S n) (S n)
+  end.
+Fixpoint word_len (l : list N) (n : nat) : nat :=
+  match l with
+  | [] => n
+  | b :: r => if (b =? 0)%N || isspace b then n else word_len r (S n)
+  end.
+(* mpt_convert_key(&txt, sep, &klen) with txt = text + p: key start, key length, end of the consumed text *)
+Definition convert_key (t : text) (sep : list N) (p : nat) : option (nat * nat * nat) :=
+  let k := skip_space_at t p in
+  let l := skipn k (t_bytes t) in
+  let (n, len) := match sep with
+                  | [] => let n := word_len l O in (n, n)
+                  | _ => key_scan sep (existsb isspace sep) l O O
+                  end in
+  if Nat.eqb n O then None else Some (k, len, (k + n)%nat).
+(* parseConvertElement(.., 'k', &key) WITH docs/C19_string_key_separator.diff: a consumed separator is the
+   byte the terminator replaces.  The caller sees the key up to the terminator. *)
+Definition rd_key (sep : list N) (t : text) (p : nat) : rres :=
+  match convert_key t sep p with
+  | None => RFail BadValue true
+  | Some (k, len, e) =>
+      let rs := if Nat.ltb (k + len) e && negb (isspace (byte_at t (e - 1))) then (e - 1)%nat else e in
+      ROk rs (firstn (rs - k) (skipn k (t_bytes t)))
+  end.
+(* parseConvertElement(.., vector 'c', &vec) WITH docs/C19_string_vector.diff: the next word, stops at the
+   end of the text; the vector starts at the element position *)
+Definition rd_vec (t : text) (p : nat) : rres :=
+  let k := skip_space_at t p in
+  let rs := (k + word_len (skipn k (t_bytes t)) O)%nat in
+  ROk rs (firstn (rs - p) (skipn p (t_bytes t))).
+Definition str_conv_k (s : stri) := str_read (rd_key (s_sep s)) s.
+Definition str_conv_vec (s : stri) := str_read rd_vec s.
 
 (* ---- buffer / argument iterators *)
 Fixpoint find0 (l : list N) : option nat :=
@@ -505,6 +570,44 @@ Definition it_consume (s : src) : Z * option fv * src :=
   | (_, s1) => (BadType, None, s1)
   end.
 
+(* mpt_iterator_consume(it, 0, 0): skip the current element; the result is the type of the value handed
+   out by value() (no conversion takes place) unless advance fails *)
+Definition it_skip (s : src) : Z * src :=
+  let (ty, s1) := match s with
+                  | SStr m => (match s_val m with Some _ => T_conv | None => 0 end, s)
+                  | SBuf m => (match buf_value m with VStr _ => T_s | VVec _ => T_vec_c | _ => 0 end, s)
+                  | _ => match it_value s with (VNone, s1) => (0, s1) | (_, s1) => (T_d, s1) end
+                  end in
+  let (r, s2) := it_advance s1 in (if r <? 0 then r else ty, s2).
+
+(* conversions of the metatype itself: parseConv (iterator_string.c), bufferConv / bufferConvArgs (meta_buffer.c).
+   Result codes in the order the harness asks (see harness/c19_iter.c:op_meta), the format list, the vector
+   (None: null base) and the string handed out.  The CONTENT of the 's' / vector conversions of the text
+   iterator is not modelled (see docs/notes_C19.md). *)
+Definition T_iter := 134. Definition T_metaptr := 256. Definition T_array := 2050. Definition T_bufptr := 11.
+Inductive mstr := MNull | MStr (b : list N) | MOpen (b : list N).     (* MOpen: no terminator inside the used data *)
+Record mres := { mr_codes : list Z; mr_fmt : list N; mr_vec : option (list N); mr_str : mstr }.
+Definition it_meta (s : src) : option mres :=
+  match s with
+  | SStr _ => Some {| mr_codes := [T_iter; 0; T_s; T_s; BadType; T_s; T_s; T_s; T_s];
+                      mr_fmt := [134; 115]%N; mr_vec := None; mr_str := MNull |}
+  | SBuf m =>
+      if m_args m then
+        Some {| mr_codes := [T_metaptr; T_metaptr; T_array; T_array; BadType; T_array; T_array;
+                             BadType; BadType; BadType; BadType; BadType; T_iter; T_iter];
+                mr_fmt := [134; 115]%N; mr_vec := None;
+                mr_str := match m_data m with
+                          | Some d => if Nat.eqb (m_off m) O then MNull else
+                                      match find0 d with Some k => MStr (firstn k d) | None => MOpen d end
+                          | None => MNull
+                          end |}
+      else
+        Some {| mr_codes := [T_metaptr; T_metaptr; T_array; T_array; BadType; T_array; T_array;
+                             T_array; T_array; T_iter; T_iter; T_iter; BadType; BadType];
+                mr_fmt := [134; 11; 67]%N; mr_vec := m_data m; mr_str := MNull |}
+  | _ => None
+  end.
+
 (* the documented loop of examples/iter.c, at most [fuel] elements *)
 Inductive wend := WLimit | WNoValue | WConvErr (c : Z) | WAdvErr (c : Z) | WDone.
 Fixpoint it_walk (fuel : nat) (s : src) (acc : list (option fv)) : list (option fv) * wend * src :=
@@ -520,6 +623,25 @@ Fixpoint it_walk (fuel : nat) (s : src) (acc : list (option fv)) : list (option 
           else if r =? 0 then (rev (v :: acc), WDone, s2)
           else it_walk fuel s2 (v :: acc)
       | (_, s1) => (rev acc, WConvErr BadType, s1)
+      end
+  end.
+
+(* the same loop on a text iterator reading every element with a byte reader (keyword / vector) *)
+Fixpoint str_walk_b (conv : stri -> Z * option (list N) * stri) (fuel : nat) (m : stri) (acc : list (list N))
+  : list (list N) * wend * stri :=
+  match fuel with
+  | O => (rev acc, WLimit, m)
+  | S fuel =>
+      match s_val m with
+      | None => (rev acc, WNoValue, m)
+      | Some _ =>
+          let '(c, b, m1) := conv m in
+          if c <? 0 then (rev acc, WConvErr c, m1) else
+          let b := match b with Some b => b | None => [] end in
+          let (r, m2) := str_advance m1 in
+          if r <? 0 then (rev (b :: acc), WAdvErr r, m2)
+          else if r =? 0 then (rev (b :: acc), WDone, m2)
+          else str_walk_b conv fuel m2 (b :: acc)
       end
   end.
 
@@ -813,6 +935,22 @@ Definition range_set (s : src) (mn mx : fv) : Z * fv * fv * src :=
   if r1 =? 0 then (MissingData, mn, mx, s1) else
   let '(r2, v2, s2) := it_consume s1 in
   if r2 <? 0 then (r2, mn, mx, s2) else (2, vdflt v1 (Fin 0), vdflt v2 (Fin 1), s2).
+(* mpt_range_set(&r, value) for the other value types: a null iterator pointer gives the default range;
+   a vector of doubles (iov_len bytes, base = None: null) must hold two elements *)
+Inductive rsarg := RSNoIter | RSVec (bytes : N) (base : option (list fv)) | RSVecNull | RSOther.
+Definition range_set_val (a : rsarg) (mn mx : fv) : Z * fv * fv :=
+  match a with
+  | RSNoIter => (0, Fin 0, of_N 1)
+  | RSVec bytes base =>
+      if (bytes / 8 =? 2)%N then
+        match base with
+        | Some l => (0, nth 0 l NaN, nth 1 l NaN)
+        | None => (0, Fin 0, of_N 1)
+        end
+      else (BadValue, mn, mx)
+  | RSVecNull => (BadValue, mn, mx)
+  | RSOther => (BadType, mn, mx)
+  end.
 (* _mpt_iterator_linear / _range / _factor with an iterator value: description and the source afterwards *)
 Definition lin_of_iter (s : src) : option desc * src :=
   let '(r, iv, s1) := it_consume_u s in
@@ -870,11 +1008,18 @@ Definition values_bound (points ld : Z) (l c r : fv) : list (Z * fv) :=
 End Machines.
 
 (* ------------------------------------------------------------------ histories *)
-Inductive op := OValue | OAdvance | OReset | OClone | OConsume | OWalk | OString.
+Inductive op := OValue | OAdvance | OReset | OClone | OConsume | OWalk | OString
+  | OKey | OKeyN | OVec | OVecN | OUint | OWalkK | OWalkV | OMeta | OSkip.
 Inductive out :=
 | OutV (v : vres) | OutA (c : Z) | OutR (c : Z) | OutK (ok : bool)
 | OutQ (c : Z) (v : option fv) | OutW (l : list (option fv)) (e : wend)
-| OutS (s : option (list N)) | OutNone.      (* OutNone: the slot is empty / operation not applicable *)
+| OutS (s : option (list N))
+| OutB (c : Z) (b : option (list N))          (* text iterator element as keyword / vector *)
+| OutC (c : Z)                                (* .. converted without a target: result code only *)
+| OutU (c : Z) (v : option N)                 (* .. as uint32 *)
+| OutWB (l : list (list N)) (e : wend)        (* documented loop reading keywords / vectors *)
+| OutM (r : mres) | OutZ (c : Z)
+| OutNone.      (* OutNone: the slot is empty / operation not applicable *)
 
 Definition WALK_MAX : nat := 40%nat.
 
@@ -892,14 +1037,8 @@ Definition mstep (rnd : Q -> fv) (st : option src * option src) (o : op * bool)
       | OAdvance => let (r, s') := it_advance rnd s in (put s', OutA r)
       | OReset => let (r, s') := it_reset s in (put s', OutR r)
       | OClone => ((fst st, it_clone s), OutK (match it_clone s with Some _ => true | None => false end))
-      | OConsume => match s with
-                    | SBuf _ => (st, OutNone)
-                    | _ => let '(r, v, s') := it_consume rnd s in (put s', OutQ r v)
-                    end
-      | OWalk => match s with
-                 | SBuf _ => (st, OutNone)
-                 | _ => let '(l, e, s') := it_walk rnd WALK_MAX s [] in (put s', OutW l e)
-                 end
+      | OConsume => let '(r, v, s') := it_consume rnd s in (put s', OutQ r v)
+      | OWalk => let '(l, e, s') := it_walk rnd WALK_MAX s [] in (put s', OutW l e)
       | OString => match s with
                    | SStr m => match s_val m with
                                | None => (st, OutNone)
@@ -907,6 +1046,31 @@ Definition mstep (rnd : Q -> fv) (st : option src * option src) (o : op * bool)
                                end
                    | _ => (st, OutNone)
                    end
+      | OKey | OKeyN | OVec | OVecN =>
+          match s with
+          | SStr m => match s_val m with
+                      | None => (st, OutV VNone)
+                      | Some _ =>
+                          let '(c, b, m') := match o with OKey | OKeyN => str_conv_k m | _ => str_conv_vec m end in
+                          (put (SStr m'), match o with OKey | OVec => OutB c b | _ => OutC c end)
+                      end
+          | _ => (st, OutNone)
+          end
+      | OUint => match s with
+                 | SStr m => match s_val m with
+                             | None => (st, OutV VNone)
+                             | Some _ => let '(c, v, m') := str_conv_u m in (put (SStr m'), OutU c v)
+                             end
+                 | _ => (st, OutNone)
+                 end
+      | OWalkK | OWalkV =>
+          match s with
+          | SStr m => let '(l, e, m') := str_walk_b (match o with OWalkK => str_conv_k | _ => str_conv_vec end)
+                                                    WALK_MAX m [] in (put (SStr m'), OutWB l e)
+          | _ => (st, OutNone)
+          end
+      | OMeta => (st, match it_meta s with Some r => OutM r | None => OutNone end)
+      | OSkip => let (r, s') := it_skip rnd s in (put s', OutZ r)
       end
   end.
 
